@@ -82,6 +82,14 @@ LEVEL = {
             "batches, batch-size independence, clone continuation and an attribute-graph scan for shared memory are checked on the implementation for "
             "every class and both stores. Statistical independence of numpy streams is numpy's contract", "7 C12", NOTE,
             "Lean 4 theorems (store/location model of deepcopy, list lemmas) + implementation oracles on clones and batches"),
+    "C13": ("proof", "Lean theorems on the loop model, every interruption point k, trace_every and stopping rule: the run over a concatenated "
+            "position stream splits at k into the first part and the loop restarted from the state reached there; the unlogged box latch is "
+            "recomputed correctly while the run is going; hence the restarted simulate() (no initial snapshot) logs exactly the entries the "
+            "uninterrupted run logs after step k and ends in the same state; counterexample theorem for the originally pinned step counter. "
+            "The electronic gauge at the restart point is a KNOWN FINDING (fresh eigh sign; reference coefficients not logged): such cases are "
+            "reported as KNOWN-FINDING and re-checked with the tracked electronics handed to restart(), where exact agreement is required. Tied to "
+            "real restarts from YAML logs (Ehrenfest, MD, FSSH with thresholds; page sizes 1..16; both rules)", "7 C13", NOTE,
+            "Lean 4 theorems (induction over the position stream, split lemma) + restart oracle at sampled/every interruption point"),
     "C14": ("proof", "Lean refinement of the YAML store to 'a plain list of snapshots', for every page size >= 1 and every history: collect = append "
             "(invariant preserved, all file operations succeed), len, indexing incl. negative indices and IndexError, reload reproduces the object state "
             "(also at exact multiples of the page size), in-memory store refines the same list (stores_agree for every index), clone holds the same "
@@ -125,7 +133,7 @@ LEVEL = {
             "Lean kernel + Mathlib; axioms propext/Classical.choice/Quot.sound; correspondence harness; libm accuracy not proved",
             "Lean 4 theorems (Real.exp_bound, convex secant slopes) + Float/impl correspondence"),
 }
-PENDING = "check not built yet in this round (planned: Lean model + theorems + correspondence, DESIGN.md section 7)"
+PENDING_UNUSED = "check not built yet in this round (planned: Lean model + theorems + correspondence, DESIGN.md section 7)"
 
 checks, na = [], []
 for p in props:
@@ -144,7 +152,7 @@ for p in props:
             "technique": tech,
         })
     else:
-        na.append({"property_id": pid, "reason": PENDING})
+        na.append({"property_id": pid, "reason": PENDING_UNUSED})
 
 man = {
     "version": 1,
